@@ -6,6 +6,11 @@ VERIF="$(cd "$(dirname "$0")/.." && pwd)"
 prop="$1"; n="${2:-40}"; reps="${3:-3}"
 T=$("$VERIF/bin/build.sh") || exit 2
 d=$(mktemp -d); trap 'rm -rf "$d"' EXIT
+export CRSIM_PY="$VERIF/py"
+case "$prop" in
+  C13|C16) python3 "$VERIF/py/gen_pickles.py" 4242 3000 "$d/pickles.json" >/dev/null || exit 2; export CRSIM_PICKLES="$d/pickles.json";;
+  C15) python3 "$VERIF/py/carbon_ring.py" 4242 150 "$d/rings.json" >/dev/null || exit 2; export CRSIM_RINGS="$d/rings.json";;
+esac
 i=0
 for gmp in 1 4 16; do
   for r in $(seq 1 $reps); do
